@@ -246,6 +246,11 @@ def _worker(args):
                         base_a, base_kw = cands[0]
                         if pn not in base_kw:
                             cands = cands + [(base_a, dict(base_kw, **{pn: not pp.default}))]
+                    # order restrictions: a bound below the largest edge (code that drops what it does not show)
+                    if pn in ("max_order", "order") and pp.default is None or (pn == "max_order" and isinstance(pp.default, int)):
+                        base_a, base_kw = cands[0]
+                        if pn not in base_kw and pp.kind in (pp.POSITIONAL_OR_KEYWORD, pp.KEYWORD_ONLY):
+                            cands = cands + [(base_a, dict(base_kw, **{pn: 1}))]
             except (TypeError, ValueError):
                 pass
             for ci, (a, kw) in enumerate(cands):
